@@ -33,7 +33,6 @@ package types
 
 //@ func Packet.Reset
 //@   property C07 C20
-//@   trusted generated code (stores the zero value and re-registers the message with the protobuf runtime)
 //@   modifies *x
 //@   ensures x != nil ==> x.Type == 0 && x.Stat == nil && x.ID == 0 && x.Data == nil
 
